@@ -17,7 +17,8 @@ from ..gen import genval
 LEVEL = "exploration"
 RULE = ("nested Struct/Sequence/Array/Prefixed/FixedSized/IfThenElse/Switch shapes with uniquely named members (depth<=4, some with docstrings), every leaf "
         "kind; EVERY truncation offset of every canonical encoding; every named leaf made unbuildable in turn (out-of-range integer, wrong-length bytes, "
-        "bytes for a string, unencodable string, unknown label, wrong element count); every named leaf made unsizable in turn. non-trivial = a failure at "
+        "bytes for a string, unencodable string, unknown label, wrong element count); every named leaf made unsizable in turn (inherently, or through each "
+        "context-dependent parameter slot with the entry absent - reached via this.key, a callable with attribute access, a callable with item access). non-trivial = a failure at "
         "depth >= 2; distinct by (shape, operation, failing member)")
 ASSUMPTIONS = ["only ConstructError subclasses carry a path; failures that legitimately raise other exceptions (KeyError for a missing dict key) are not provoked"]
 REQUIRED_ANCHORS = ["core:ConstructError.__init__", "core:Renamed._parse", "core:Renamed._build", "core:Renamed._sizeof", "core:stream_read", "core:Construct.parse_stream",
